@@ -439,7 +439,7 @@ func (w *worker[T, JobType]) goRemoveIdleWorkers() {
 }
 
 func (w *worker[T, JobType]) goListenToContext() {
-	if w.ctx == nil {
+	if w.Context() == nil {
 		return
 	}
 
@@ -447,8 +447,11 @@ func (w *worker[T, JobType]) goListenToContext() {
 	go func(c context.Context) {
 		<-c.Done()
 
-		w.Stop()
-	}(w.ctx)
+		// Restart cancels the context of the previous run; that must not stop the new one
+		if w.Context() == c {
+			w.Stop()
+		}
+	}(w.Context())
 }
 
 // starts the event loop that processes pending jobs when workers become available
@@ -622,8 +625,12 @@ func (w *worker[T, JobType]) Stop() error {
 		return ErrNotRunningWorker
 	}
 
-	if w.cancel != nil {
-		defer w.cancel()
+	w.mx.RLock()
+	cancel := w.cancel
+	w.mx.RUnlock()
+
+	if cancel != nil {
+		defer cancel()
 	}
 	defer w.status.Store(stopped)
 
@@ -731,6 +738,9 @@ func (w *worker[T, JobType]) Resume() error {
 }
 
 func (w *worker[T, JobType]) Context() context.Context {
+	w.mx.RLock()
+	defer w.mx.RUnlock()
+
 	return w.ctx
 }
 
